@@ -135,7 +135,7 @@ func checkConstraint(s string) (bool, error) {
 	line := ""
 	inBlock := false
 header:
-	for _, l := range strings.Split(s, "\n") {
+	for _, l := range strings.Split(strings.TrimPrefix(s, "\ufeff"), "\n") { // (a byte order mark may precede the first line)
 		l = strings.TrimSpace(l)
 		if !inBlock && constraint.IsGoBuild(l) {
 			line = l
